@@ -394,9 +394,32 @@ package xy
 // sorts its argument in place (first the lowest point to the front, then radially about it)
 //@ func convexHullCalculator.preSort
 //@   floats real
-//@   trusted
-//@   requires calc.stride >= 2 && len(pts) >= 2
+//@   lemmas mulCancel, mulCancel2, mulNonneg, mulMono
+//@   requires calc.stride >= 2 && calc.stride == strideOf(calc.layout) && whole(len(pts), calc.stride) && len(pts) >= calc.stride
 //@   modifies pts
+//@   at stmt5: assert pts[0] == c0[off(pts)+i] && pts[1] == c0[off(pts)+i+1] && pts[i] == c0[off(pts)] && pts[i+1] == c0[off(pts)+1]
+//@   at stmt5: assert forall k int :: {mul(k, calc.stride)} 1 <= k && k < q ==> calc.stride <= mul(k, calc.stride) && mul(k, calc.stride) + calc.stride <= i
+//@   at stmt5: assert forall k int :: {mul(k, calc.stride)} 1 <= k && k < q ==> pts[mul(k, calc.stride)] == c0[off(pts)+mul(k, calc.stride)] && pts[mul(k, calc.stride)+1] == c0[off(pts)+mul(k, calc.stride)+1]
+//@   at stmt5: assert forall k int :: {mul(k, calc.stride)} 1 <= k && k < q ==> pts[1] < pts[mul(k, calc.stride) + 1] || (pts[1] == pts[mul(k, calc.stride) + 1] && pts[0] <= pts[mul(k, calc.stride)])
+//@   at stmt5: assert pts[1] < pts[mul(q, calc.stride) + 1] || (pts[1] == pts[mul(q, calc.stride) + 1] && pts[0] <= pts[mul(q, calc.stride)])
+//@   at stmt5: assert forall k int :: {mul(k, calc.stride)} 0 <= k && k < q + 1 ==> pts[1] < pts[mul(k, calc.stride) + 1] || (pts[1] == pts[mul(k, calc.stride) + 1] && pts[0] <= pts[mul(k, calc.stride)])
+//@   loop 1:
+//@     ghost q int = 1 step q + 1
+//@     invariant q >= 1 && i == mul(q, calc.stride) && mul(q + 1, calc.stride) == mul(q, calc.stride) + calc.stride && len(pts) == mul(cnt(len(pts), calc.stride), calc.stride) && i <= len(pts)
+//@     invariant [focal] forall k int :: {mul(k, calc.stride)} 0 <= k && k < q ==> pts[1] < pts[mul(k, calc.stride) + 1] || (pts[1] == pts[mul(k, calc.stride) + 1] && pts[0] <= pts[mul(k, calc.stride)])
+//@   loop 2:
+//@     ghost c0 seq[float64] = cells(pts) step c0
+//@     invariant 0 <= idx && idx <= calc.stride && i + calc.stride <= len(pts) && i >= calc.stride
+//@     invariant c0[off(pts)+i+1] < c0[off(pts)+1] || (c0[off(pts)+i+1] == c0[off(pts)+1] && c0[off(pts)+i] < c0[off(pts)])
+//@     invariant forall k int :: {mul(k, calc.stride)} 0 <= k && k < q ==> c0[off(pts)+1] < c0[off(pts)+mul(k, calc.stride)+1] || (c0[off(pts)+1] == c0[off(pts)+mul(k, calc.stride)+1] && c0[off(pts)] <= c0[off(pts)+mul(k, calc.stride)])
+//@     invariant forall j int :: {pts[j]} 0 <= j && j < len(pts) ==> pts[j] == (j < idx ? c0[off(pts)+i+j] : (i <= j && j < i + idx ? c0[off(pts)+j-i] : c0[off(pts)+j]))
+
+// the radial order is about the focal point handed over; the result wraps the array it was given
+//@ func NewRadialSorting
+//@   floats real
+//@   trusted
+//@   ensures istype(res, sorting.FlatCoord) && unbox(res, sorting.FlatCoord).coords == coordData
+//@   modifies nothing
 
 //@ func convexHullCalculator.computeOctPts
 //@   floats real
